@@ -11,6 +11,8 @@ CONSTANTS
   AllowEnd = FALSE
   MaxRequery = 0
   FixCommitState = TRUE
-INVARIANTS TypeOK InOrderNoDup AllDelivered SlotsSuffice SlotBound SMPSound SMPOutcome
+  SeqSMP = FALSE
+  FixSMPReset = FALSE
+INVARIANTS TypeOK InOrderNoDup AllDelivered SlotsSuffice SlotBound SMPSound RunOutcomeKnown
 PROPERTIES BothEncrypted SMPFinishes
 CHECK_DEADLOCK FALSE
